@@ -9,10 +9,20 @@ MODULE = 'KdVerif.Props.C04'
 NAMESPACE = 'KdVerif.C04'
 TRUSTED = ['Model/Pairing.step is a hand model of TracesParser.feed/_feed_start_event/_feed_end_event/'
            '_feed_single_event (two dicts tid -> eventid -> list merged into one function of (domain, tid, eid)); '
-           'tied to the code by the correspondence sections `pairing` (recording stub handlers, public feed() '
-           'return values and, separately observed, the lists handed to parse_event_list) and `real` '
-           '(real handlers, trace.ktraces)',
-           'Model/Pairing.gate is a hand model of parse_event_list up to the handler call',
+           'tied to the code (a) by TRANSLATION: tools/gen_pyir.py turns the source text of the five methods and of '
+           'the qualifiers_actions dict into the Python-subset IR of Model/PyIR on every run, source_is_expected_ir '
+           'says it is the program of Spec/PyIRExpected, run_ir_eq_run_model / expected_ir_refines_model say that '
+           'program run by the interpreter PyIR.exec IS step/run on the abstraction of the heap; and (b) by the '
+           'correspondence sections `pairing` (recording stub handlers, public feed() return values and, separately '
+           'observed, the lists handed to parse_event_list), `pairing-ir` (the generated IR through the interpreter '
+           'against the real parser) and `real` (real handlers, trace.ktraces)',
+           'Model/Pairing.gate is a hand model of parse_event_list up to the handler call (translation tie: '
+           'parse_event_list_ir_eq_gate)',
+           'the translation tie trusts: tools/gen_pyir.py (pure ast; local aliases inlined under checked side '
+           'conditions, not/or/and resolved into nested ifs, everything else an explicit .unsupported node) and the '
+           'interpreter Model/PyIR as a semantics of that Python subset (insertion-ordered dicts as association '
+           'lists, KeyError/IndexError, Python evaluation order; paths instead of object references, never stored in '
+           'a local) — the section `pairing-ir` tests exactly these two against CPython',
            'the handler call itself is abstract here (a handler may still return None for a continuation '
            'fragment: C08)']
 ASSUMPTIONS = ['event.func_qualifier is debugid & 3 (C01), so the qualifiers_actions lookup cannot raise KeyError; '
@@ -116,11 +126,33 @@ def _mark(case, part):
     return part if dec.get(first[2], False) else part + '*'
 
 
+def line_pyir(case):
+    """`pyir <codes> <records>`: codes = `eid:name number:in trace_handlers:has handler` for every id trace_codes knows."""
+    tn = set(P.trace_domain_names())
+    num = {n: i + 1 for i, n in enumerate(sorted({c[1] for c in case['codes'] if c[1] is not None}))}
+    ents = ['%d:%d:%d:%d' % (c[0], num[c[1]], c[1] in tn, bool(c[2])) for c in case['codes'] if c[1] is not None]
+    return ' '.join(['pyir', ','.join(ents) or '-'] + [P.rec_hex(e) for e in case['events']])
+
+
 SECTIONS = {
-    'pairing': ('pairg', impl_stub, P.oracle_per_event),
-    'pairing-pregate': ('pair', impl_pregate, oracle_pregate),
-    'real': ('pairg', impl_real, P.oracle_per_event),
+    'pairing': (lambda c: P.line('pairg', c), impl_stub, P.oracle_per_event),
+    'pairing-pregate': (lambda c: P.line('pair', c), impl_pregate, oracle_pregate),
+    'pairing-ir': (line_pyir, impl_stub, P.oracle_per_event),
+    'real': (lambda c: P.line('pairg', c), impl_real, P.oracle_per_event),
 }
+
+
+def translation_tie(rep):
+    """Is the IR translated from traces_parser.py the program the refinement theorems are about?  Returns whether the
+    generated program can be run (no `.unsupported` node)."""
+    ans = core.drive(['pyircheck'])[0]
+    if ans == 'same':
+        rep.notes.append('translation tie: Gen/PyIR (from traces_parser.py) = Spec/PyIRExpected')
+        return True
+    rep.broken.append('theorem source_is_expected_ir: the IR that tools/gen_pyir.py translates from the source text of '
+                      'traces_parser.py is not the program of Spec/PyIRExpected that expected_ir_refines_model / '
+                      'run_ir_eq_run_model are proved for (%s)' % ans)
+    return 'unsupported' not in ans
 
 
 RULE_PAIRING = ('11 hand-written shapes + seeded histories (0..40 events, thorough also 0..120) over 1-4 thread '
@@ -199,6 +231,9 @@ def correspondence(rep, rng, tier):
     if hits:
         rep.broken.append('assumption: code outside traces_parser.py references the window tables (%s); the model\'s decoders '
                           'cannot' % '; '.join(hits[:4]))
+    runnable = translation_tie(rep)
+    if not runnable:
+        rep.notes.append('section pairing-ir skipped: the translation contains .unsupported nodes')
     kind = lambda c, got: c['style']  # noqa: E731
     nontriv = lambda c, got: got.startswith('ok') and P.has_multi_window(got)  # noqa: E731
     chunks = [(6000, 40)] if tier == 'quick' else [(10000, 40)] * 9 + [(3000, 120)]
@@ -214,6 +249,14 @@ def correspondence(rep, rng, tier):
                     nontrivial_fn=nontriv, kind_fn=kind,
                     rule='every third case of `pairing`: only the lists handed to parse_event_list (all codes, also '
                          'undecodable ones), against the ungated `pair` command')
+        if runnable:
+            run_section(rep, 'pairing-ir', sub,
+                        line_fn=line_pyir, impl_fn=impl_stub, oracle_fn=P.oracle_per_event,
+                        nontrivial_fn=nontriv, kind_fn=kind, skip_fn=lambda m: m == 'unsupported',
+                        rule='the cases of `pairing-pregate`: the program GENERATED from traces_parser.py (Gen/PyIR) run by '
+                             'the interpreter of Model/PyIR (`pyir`: per event the list handed to parse_event_list and '
+                             'whether a handler result came back) against the real TracesParser with recording stub '
+                             'handlers — tests the translator and the interpreter, not the hand model')
         first = False
     P.shrink_failures(rep, 'pairing', impl_stub, P.oracle_per_event, lambda c: P.line('pairg', c))
     P.shrink_failures(rep, 'pairing-pregate', impl_pregate, oracle_pregate, lambda c: P.line('pair', c))
@@ -263,12 +306,12 @@ def replay(path):
             return 1
         print('oracle: property holds on this input')
         return 0
-    cmd, impl_fn, oracle = SECTIONS[sec]
+    line_fn, impl_fn, oracle = SECTIONS[sec]
     try:
         got = impl_fn(case)
     except Exception as e:
         got = 'err ' + core.err_name(e)
-    model = core.drive([P.line(cmd, case)])[0]
+    model = core.drive([line_fn(case)])[0]
     print('history (timestamp tid code qualifier):')
     for e in case['events']:
         print('   %d tid=%d code=%#x q=%d' % (e[0], e[1], e[2], e[3]))
@@ -287,8 +330,21 @@ LEVEL_TEXT = ('Lean theorems for ALL histories: the pairing state machine (model
               'declarative history-based specification (state_eq, by induction on the history); from it: '
               'end_emits_window, stray_end_noop, single_emits_self, start_emits_nothing, no_other_output, '
               'run_is_declarative, window_head_is_last_start, window_last_is_end, window_sandwich (Sublist bounds), '
-              'matched_end_included, trace_iff_decodable.  The model is tied to the code by differential runs '
-              'against the real TracesParser.')
-LEVEL_NOTE = ('Trusted: Lean kernel; the hand model of feed (Model/Pairing) — tied by correspondence only; the '
+              'matched_end_included, trace_iff_decodable.  TRANSLATION TIE: the source text of feed / '
+              'parse_event_list / _feed_start_event / _feed_end_event / _feed_single_event and the qualifiers_actions '
+              'dict is translated on every run (tools/gen_pyir.py, pure ast) into a deep embedding of the Python '
+              'subset they use (Model/PyIR: expressions, if/return/for/append/pop/dict stores, calls; a big-step '
+              'interpreter over a heap of insertion-ordered dicts of dicts of lists with KeyError/IndexError); '
+              'source_is_expected_ir: the generated program is the one of Spec/PyIRExpected; '
+              'expected_ir_refines_model: for EVERY well-formed heap and event, interpreting feed gives the heap that '
+              'abstracts to Pairing.step, calls parse_event_list with exactly the emitted list and returns the gated '
+              'result, and keeps the heap well-formed; run_ir_eq_run_model: for every history from the empty tables '
+              'the generated program yields Pairing.outputs / run / stateAfter; parse_event_list_ir_eq_gate: '
+              'parse_event_list is Pairing.gate (IndexError on []).  Model and generated IR are also run '
+              'differentially against the real TracesParser.')
+LEVEL_NOTE = ('Trusted: Lean kernel; the translator tools/gen_pyir.py and the interpreter Model/PyIR as the semantics of '
+              'the Python subset (both tested against CPython by the section pairing-ir); the hand model of feed '
+              '(Model/Pairing) is no longer trusted by itself — it is proved equal to the interpreted source; the '
               'handler call after the gate is abstract (continuation fragments swallowed by handlers: C08).')
-TECHNIQUE = 'Lean 4 refinement proof (state machine vs. declarative spec) + differential correspondence'
+TECHNIQUE = ('Lean 4 refinement proofs (interpreted source IR vs. state machine vs. declarative spec) + translation '
+             'validation + differential correspondence')
